@@ -428,6 +428,8 @@ def _ty_spec(cfg, i, path):
     return verdict == 'accepted' and type(got) is T and got == want and type(again) is T and again == got
 
 
+from contracts import c08_rawkeys as RK
+
 CONTRACTS = [
     Contract('IntConverter', ['pony.orm.dbapiprovider:IntConverter.init', 'pony.orm.dbapiprovider:IntConverter.validate'],
              _int_configs, _int_case, [('accepts_iff_within_declared_bounds', _int_accept), ('init_accepts_iff_bounds_fit_size', _int_decl)],
@@ -456,4 +458,6 @@ CONTRACTS = [
                                            'pony.orm.dbapiprovider:UuidConverter.validate', 'pony.orm.dbapiprovider:ConverterWithMicroseconds.round_microseconds_to_precision'],
              _ty_configs, _ty_case, [('accepted_value_has_exactly_the_declared_type_and_the_documented_normal_form', _ty_spec)], level='bounded',
              bound='7 converters x 5 - 9 candidate values each (right type, subclass, text, wrong types) x precisions 0 / 3 / 6 where they apply'),
+    Contract('raw_key_values_for_relationships', ['pony.orm.core:EntityMeta._get_by_raw_pkval_', 'pony.orm.core:Attribute.validate', 'pony.orm.core:EntityMeta._normalize_args_' if hasattr(core.EntityMeta, '_normalize_args_') else 'pony.orm.core:Attribute.validate'],
+             RK.configs, RK.case, [('raw_key_validated_like_the_key_attribute_it_stands_for', RK.spec)], level='bounded', bound=RK.BOUND),
 ]
